@@ -1,6 +1,6 @@
 (* Cobs/QueuePushTheorem.v — mpt_queue_push preserves the stream-level encoder invariant. *)
 From MptV Require Import Base.Mem Base.Tactics C13.QueueModel C13.QueueProofs C13.QueueAlign
-  Cobs.CobsModel Cobs.EncProofs Cobs.EncShift Cobs.QueueCodec Cobs.QueuePushProofs.
+  Cobs.CobsModel Cobs.EncProofs Cobs.EncShift Cobs.QueueCodec Cobs.QueuePushProofs Cobs.QueuePushOob.
 Local Open Scope nat_scope.
 
 Lemma wstate_0 st : wstate st 0 = st.
@@ -110,32 +110,195 @@ Proof. destruct arg as [[|x d]|]; reflexivity. Qed.
 Lemma norm_arg_ne arg : match norm_arg arg with Some src => src <> [] | None => True end.
 Proof. destruct arg as [[|x d]|]; cbn; try exact I. discriminate. Qed.
 
-(* the case in which mpt_queue_push copies the open block out of band (it straddles the wrap) *)
-Definition no_oob (e : equeue) : Prop :=
-  let q := eq_q e in let st := eq_st e in
-  qoff q = 0 \/ qmax q - qoff q <= edone st \/ escr st <= qmax q - qoff q - edone st.
-
-Definition push_ok (v : variant) (pre consumed sent : list byte) (arg : option (list byte))
+(* [q0]: the queue before the push; capacity is kept, the offset is kept or reset by re-alignment *)
+Definition push_ok (v : variant) (pre consumed sent : list byte) (arg : option (list byte)) (q0 : queue)
            (x : res (eres * equeue)) : Prop :=
   match x with
-  | Ok (r, e') => push_post v pre consumed sent arg r e'
+  | Ok (r, e') => push_post v pre consumed sent arg r e' /\ qmax (eq_q e') = qmax q0 /\
+                  (qoff (eq_q e') = qoff q0 \/ qoff (eq_q e') = 0)
   | _ => False
   end.
 
-Lemma finish_ok v pre consumed sent arg r q st :
+Lemma finish_ok v pre consumed sent arg r q st q0 :
   edone st + escr st <= qmax q ->
   push_post v pre consumed sent arg r (mkeq (set_len q (edone st + escr st)) st) ->
-  push_ok v pre consumed sent arg
-    (let l := edone st + escr st in if qmax q <? l then Fault else Ok (r, mkeq (set_len q l) st)).
+  qmax q = qmax q0 -> (qoff q = qoff q0 \/ qoff q = 0) ->
+  push_ok v pre consumed sent arg q0 (push_finish r q st).
 Proof.
-  intros Hle Hp. cbn zeta. destruct (Nat.ltb_spec (qmax q) (edone st + escr st)); [lia|]. exact Hp.
+  intros Hle Hp Hm Ho. unfold push_finish. cbn zeta. destruct (Nat.ltb_spec (qmax q) (edone st + escr st)); [lia|].
+  cbn [push_ok eq_q set_len qmax qoff]. auto.
 Qed.
 
-Theorem equeue_push_refines_partial v e sent pre consumed arg :
-  variant_ok v -> rinv v pre consumed sent e -> no_oob e -> qoff (eq_q e) < qmax (eq_q e) ->
-  push_ok v pre consumed sent (norm_arg arg) (equeue_push v e arg).
+(* ---------- the out-of-band first step ---------- *)
+Lemma push_oob_ok v q st sent pre consumed a :
+  variant_ok v -> qinv q -> qlen q = edone st + escr st ->
+  enc_inv v pre consumed (shift_st st (length sent)) (sent ++ contents q) ->
+  (match a with Some src => src <> [] | None => True end) ->
+  exists r q1 st1, push_oob v q st a = Ok (r, q1, st1, edone st1) /\
+    qmax q1 = qmax q /\ qoff q1 = qoff q /\ edone st1 + escr st1 <= qmax q /\
+    push_post v pre consumed sent a r (mkeq (set_len q1 (edone st1 + escr st1)) st1) /\
+    (is_err r = true -> st1 = st /\ q1 = q).
 Proof.
-  intros Hv [[Hq Hl] Hinv] Hno Hmax. unfold equeue_push. rewrite norm_arg_eq. rewrite (norm_arg_len arg).
+  intros Hv Hq Hl Hinv Hne. pose proof Hq as (Hb & Hlm & Ho). unfold push_oob.
+  assert (Hself : rinv v pre consumed sent (mkeq (set_len q (edone st + escr st)) st)).
+  { rewrite set_len_self by assumption. split; [split|]; assumption. }
+  destruct (Nat.leb_spec 256 (escr st)) as [Hbig|Hsmall].
+  { exists (EErr BadArgument), q, st. split; [reflexivity|]. split; [reflexivity|]. split; [reflexivity|].
+    split; [lia|]. split; [destruct a; exact Hself|auto]. }
+  set (done := edone st) in *.
+  rewrite (oob_copy q done (escr st) Hq Hl). cbn [bind].
+  set (P := firstn done (contents q)). set (W := skipn done (contents q)).
+  assert (HcP : contents q = P ++ W) by (symmetry; apply firstn_skipn).
+  assert (HlP : length P = done) by (unfold P; rewrite firstn_length, contents_length by assumption; lia).
+  assert (HlW : length W = escr st) by (unfold W; rewrite skipn_length, contents_length by assumption; lia).
+  set (mx := Nat.min (qmax q - done) 256).
+  pose proof (flat_call_eq v q st sent P W mx a HcP ltac:(rewrite HlP; unfold done; lia)
+                ltac:(rewrite HlP, HlW; unfold done; lia)) as Hflat.
+  rewrite HlP in Hflat.
+  replace (wstate st done) with (rebase st 0) in Hflat
+    by (unfold wstate, rebase, done; rewrite Nat.sub_diag; reflexivity).
+  destruct (enc_call v (rebase st 0) W mx a) as [[r stw'] buf'].
+  replace (rebase stw' (done + edone stw')) with (unw stw' done) by reflexivity.
+  replace (done + edone stw') with (edone (unw stw' done)) by reflexivity.
+  destruct a as [src|].
+  - pose proof (enc_data_call v pre consumed (shift_st st (length sent)) (sent ++ contents q)
+                  (length sent + (done + mx)) src Hv Hinv) as Hdc.
+    rewrite Hflat in Hdc. destruct r as [k|er|]; [| |contradiction]; cbn [is_err].
+    + destruct Hdc as (Hk & Hinv' & Hbound). cbn [shift_st unw edone escr] in Hbound.
+      pose proof (enc_inv_length _ _ _ _ _ Hinv') as Hlen.
+      rewrite !app_length in Hlen. cbn [shift_st unw edone escr] in Hlen. rewrite HlP in Hlen.
+      assert (Hset : edone stw' + escr stw' = length buf') by lia. rewrite Hset.
+      destruct (Nat.ltb_spec (qmax q) (done + length buf')); [lia|].
+      destruct (oob_writeback q done buf' Hq ltac:(unfold done; lia) ltac:(lia))
+        as (q'' & -> & Hq'' & Hl'' & Hm'' & Ho'' & Hc''). cbn [bind].
+      exists (EInt k), q'', (unw stw' done). split; [reflexivity|]. split; [assumption|]. split; [assumption|].
+      assert (Hlq : qlen q'' = edone (unw stw' done) + escr (unw stw' done)) by (cbn [unw edone escr]; lia).
+      split; [cbn [unw edone escr]; lia|]. split; [|discriminate].
+      cbn [push_post]. split; [assumption|]. rewrite set_len_self by assumption.
+      split; [split; assumption|]. cbn [eq_q eq_st]. rewrite Hc''. exact Hinv'.
+    + destruct Hdc as [Hst _]. apply unw_eq_of_shift in Hst.
+      exists (EErr er), q, (unw stw' done). rewrite Hst. split; [reflexivity|]. split; [reflexivity|].
+      split; [reflexivity|]. split; [fold done; lia|]. split; [exact Hself|auto].
+  - pose proof (enc_term_call v pre consumed (shift_st st (length sent)) (sent ++ contents q)
+                  (length sent + (done + mx)) Hv Hinv ltac:(cbn [shift_st edone escr]; fold done; lia)) as Htc.
+    rewrite Hflat in Htc. destruct r as [k|er|]; [| |contradiction]; cbn [is_err].
+    + destruct Htc as (body & Hbody & Hs & Hnz & Hidle & Hbound).
+      destruct Hidle as [Hi0 Hi1]. cbn [shift_st unw edone escr] in Hi0, Hi1.
+      rewrite !app_length in Hi1, Hbound. rewrite HlP in Hi1, Hbound.
+      assert (Hset : edone stw' + escr stw' = length buf') by lia. rewrite Hset.
+      destruct (Nat.ltb_spec (qmax q) (done + length buf')); [lia|].
+      destruct (oob_writeback q done buf' Hq ltac:(unfold done; lia) ltac:(lia))
+        as (q'' & -> & Hq'' & Hl'' & Hm'' & Ho'' & Hc''). cbn [bind].
+      exists (EInt k), q'', (unw stw' done). split; [reflexivity|]. split; [assumption|]. split; [assumption|].
+      assert (Hlq : qlen q'' = edone (unw stw' done) + escr (unw stw' done)) by (cbn [unw edone escr]; lia).
+      split; [cbn [unw edone escr]; lia|]. split; [|discriminate].
+      cbn [push_post]. rewrite set_len_self by assumption.
+      split; [split; assumption|]. cbn [eq_q eq_st]. exists body. rewrite Hc''. fold P.
+      split; [exact Hbody|]. split; [exact Hs|]. split; [exact Hnz|].
+      split; cbn [shift_st unw edone escr]; [exact Hi0|]. rewrite !app_length, HlP. lia.
+    + destruct Htc as [Hst _]. apply unw_eq_of_shift in Hst.
+      exists (EErr er), q, (unw stw' done). rewrite Hst. split; [reflexivity|]. split; [reflexivity|].
+      split; [reflexivity|]. split; [fold done; lia|]. split; [exact Hself|auto].
+Qed.
+
+(* ---------- what follows the first step in the lower part ---------- *)
+Lemma push_tail_ok v q st sent pre consumed a r q1 st1 :
+  variant_ok v -> qinv q -> qoff q <> 0 -> qoff q < qmax q -> edone st < qmax q - qoff q ->
+  qlen q = edone st + escr st ->
+  (match a with Some src => src <> [] | None => True end) ->
+  qmax q1 = qmax q -> qoff q1 = qoff q ->
+  edone st1 + escr st1 <= qmax q ->
+  push_post v pre consumed sent a r (mkeq (set_len q1 (edone st1 + escr st1)) st1) ->
+  (is_err r = true -> st1 = st /\ q1 = q) ->
+  push_ok v pre consumed sent a q
+    (push_tail v (qmax q - qoff q) (qoff q) (match a with Some d => length d | None => 0 end) a
+               (r, q1, st1, edone st1)).
+Proof.
+  intros Hv Hq H0 Hoff Hlow Hl Hne Hm1 Ho1 Hle1 Hp1 Herr1. pose proof Hq as (Hb & Hlm & Ho).
+  unfold push_tail. set (low := qmax q - qoff q) in *.
+  destruct r as [k|er|]; cbn [is_err].
+  - (* first call made progress *)
+    destruct (Nat.ltb_spec k (match a with Some d => length d | None => 0 end)) as [Hshort|Hfull].
+    + (* incomplete: continue with the rest *)
+      destruct a as [src|]; [|cbn in Hshort; lia].
+      destruct Hp1 as [Hk1 Hr1]. destruct Hr1 as [[Hq1' Hl1'] Hinv1]. cbn [eq_q eq_st] in *.
+      assert (Hne2 : skipn k src <> []).
+      { intros E. apply (f_equal (@length _)) in E. rewrite skipn_length in E. cbn in E. lia. }
+      set (q1' := set_len q1 (edone st1 + escr st1)) in *.
+      assert (Hm1' : qmax q1' = qmax q) by exact Hm1.
+      assert (Ho1' : qoff q1' = qoff q) by exact Ho1.
+      destruct (Nat.ltb_spec (edone st1) low) as [Hd1|Hd1].
+      * (* align and continue on the whole storage *)
+        destruct (qalign_spec q1' 0 Hq1') as (q2 & Hal & Hq2 & Hm2 & Hl2 & Ho2 & Hc2).
+        rewrite Hal. cbn [bind]. specialize (Ho2 eq_refl).
+        rewrite <- Hc2 in Hinv1.
+        pose proof (push_whole v q2 st1 sent pre (consumed ++ firstn k src) (Some (skipn k src))
+                      Hv Hq2 Ho2 ltac:(rewrite Hl2; exact Hl1') Hinv1 Hne2) as H.
+        destruct (win_enc v st1 (qbuf q2) 0 (qmax q2) (Some (skipn k src))) as [[r2 st2] m2].
+        destruct H as (m2' & -> & Hle2 & Hp2 & _). cbn [bind].
+        destruct r2 as [k2|e2|]; [| |contradiction].
+        -- apply (finish_ok v pre consumed sent (Some src) (EInt (k + k2)) (set_buf q2 m2') st2 q); [assumption| |cbn [set_buf qmax]; congruence|right; exact Ho2].
+           destruct Hp2 as [Hk2 Hr2]. rewrite skipn_length in Hk2. split; [lia|].
+           rewrite <- app_assoc, firstn_firstn_skipn in Hr2. exact Hr2.
+        -- apply (finish_ok v pre consumed sent (Some src) (EInt k) (set_buf q2 m2') st2 q); [assumption| |cbn [set_buf qmax]; congruence|right; exact Ho2].
+           split; [assumption|]. exact Hp2.
+      * (* second push into the upper part *)
+        assert (HcP : contents q1' = firstn low (contents q1') ++ skipn low (contents q1')) by (symmetry; apply firstn_skipn).
+        assert (Hlen1 : qlen q1' = edone st1 + escr st1) by reflexivity.
+        assert (HlP : length (firstn low (contents q1')) = low)
+          by (rewrite firstn_length, contents_length by assumption; lia).
+        assert (HlW : length (skipn low (contents q1')) = qlen q1' - low)
+          by (rewrite skipn_length, contents_length by assumption; lia).
+        pose proof (finish_window v q1' st1 sent pre (consumed ++ firstn k src)
+                      (firstn low (contents q1')) (skipn low (contents q1'))
+                      0 (qoff q) (Some (skipn k src)) Hv Hq1' HcP
+                      ltac:(rewrite HlP, HlW; lia) ltac:(rewrite HlP; lia) ltac:(rewrite HlP, HlW; lia)) as H.
+        rewrite HlP in H.
+        assert (Hgeo1 : window_geo q1' low 0 (qoff q)).
+        { pose proof (geo_upper q1' Hq1' ltac:(rewrite Ho1'; lia) ltac:(rewrite Ho1', Hm1'; lia)) as G.
+          rewrite Ho1', Hm1' in G. exact G. }
+        specialize (H Hgeo1 ltac:(rewrite HlW; lia) Hinv1 Hne2).
+        unfold rebase. fold (wstate st1 low).
+        change (qbuf q1') with (qbuf q1) in H.
+        destruct (win_enc v (wstate st1 low) (qbuf q1) 0 (qoff q) (Some (skipn k src))) as [[r2 stw2] m2].
+        destruct H as (m2' & -> & Hle2 & Hp2 & _). cbn [bind].
+        replace (mke (ectx stw2) (edone stw2 + low) (escr stw2)) with (unw stw2 low)
+          by (unfold unw; f_equal; lia).
+        change (set_len (set_buf q1' m2') (edone (unw stw2 low) + escr (unw stw2 low)))
+          with (set_len (set_buf q1 m2') (edone (unw stw2 low) + escr (unw stw2 low))) in Hp2.
+        rewrite Hm1' in Hle2.
+        assert (Hle2' : edone (unw stw2 low) + escr (unw stw2 low) <= qmax (set_buf q1 m2'))
+          by (cbn [set_buf qmax]; rewrite Hm1; exact Hle2).
+        destruct r2 as [k2|e2|]; [| |contradiction].
+        -- apply (finish_ok v pre consumed sent (Some src) (EInt (k + k2)) (set_buf q1 m2') (unw stw2 low) q); [exact Hle2'| |exact Hm1|left; exact Ho1].
+           destruct Hp2 as [Hk2 Hr2]. rewrite skipn_length in Hk2. split; [lia|].
+           rewrite <- app_assoc, firstn_firstn_skipn in Hr2. exact Hr2.
+        -- apply (finish_ok v pre consumed sent (Some src) (EInt k) (set_buf q1 m2') (unw stw2 low) q); [exact Hle2'| |exact Hm1|left; exact Ho1].
+           split; [assumption|]. exact Hp2.
+    + (* complete *)
+      apply (finish_ok v pre consumed sent a (EInt k) q1 st1 q); [rewrite Hm1; assumption|assumption|exact Hm1|left; exact Ho1].
+  - (* first call refused: align and retry on the whole storage *)
+    destruct (Herr1 eq_refl) as [-> ->].
+    cbn [push_post] in Hp1.
+    assert (Hp1' : rinv v pre consumed sent (mkeq (set_len q (edone st + escr st)) st))
+      by (destruct a; exact Hp1).
+    rewrite set_len_self in Hp1' by assumption.
+    destruct Hp1' as [[Hq1' Hl1'] Hinv1]. cbn [eq_q eq_st] in *.
+    destruct (qalign_spec q 0 Hq) as (q2 & Hal & Hq2 & Hm2 & Hl2 & Ho2 & Hc2).
+    rewrite Hal. cbn [bind]. specialize (Ho2 eq_refl).
+    rewrite <- Hc2 in Hinv1.
+    pose proof (push_whole v q2 st sent pre consumed a Hv Hq2 Ho2 ltac:(rewrite Hl2; exact Hl) Hinv1 Hne) as H.
+    destruct (win_enc v st (qbuf q2) 0 (qmax q2) a) as [[r2 st2] m2].
+    destruct H as (m2' & -> & Hle2 & Hp2 & _). cbn [bind].
+    apply (finish_ok v pre consumed sent a r2 (set_buf q2 m2') st2 q); [assumption|assumption|exact Hm2|right; exact Ho2].
+  - cbn [push_post] in Hp1. destruct a; contradiction.
+Qed.
+
+Theorem equeue_push_refines v e sent pre consumed arg :
+  variant_ok v -> rinv v pre consumed sent e -> qoff (eq_q e) < qmax (eq_q e) ->
+  push_ok v pre consumed sent (norm_arg arg) (eq_q e) (equeue_push v e arg).
+Proof.
+  intros Hv [[Hq Hl] Hinv] Hmax. unfold equeue_push. rewrite norm_arg_eq. rewrite (norm_arg_len arg).
   pose proof (norm_arg_ne arg) as Hne. set (a := norm_arg arg) in *.
   set (q := eq_q e) in *. set (st := eq_st e) in *. pose proof Hq as (Hb & Hlm & Ho).
   destruct (Nat.eqb_spec (qoff q) 0) as [H0|H0].
@@ -143,7 +306,7 @@ Proof.
     pose proof (push_whole v q st sent pre consumed a Hv Hq H0 Hl Hinv Hne) as H.
     destruct (win_enc v st (qbuf q) 0 (qmax q) a) as [[r st'] m].
     destruct H as (m' & -> & Hle & Hp & _). cbn [bind].
-    apply (finish_ok v pre consumed sent a r (set_buf q m') st'); assumption.
+    apply (finish_ok v pre consumed sent a r (set_buf q m') st' q); [assumption|assumption|reflexivity|left; reflexivity].
   - destruct (Nat.leb_spec (qmax q - qoff q) (edone st)) as [Hup|Hlow].
     + (* finished data already wraps: window = storage start up to the offset *)
       assert (Hoff : qoff q < qmax q) by exact Hmax.
@@ -159,96 +322,23 @@ Proof.
       destruct H as (m' & -> & Hle & Hp & _). cbn [bind].
       replace (mke (ectx stw') (edone stw' + low) (escr stw')) with (unw stw' low)
         by (unfold unw; f_equal; lia).
-      apply (finish_ok v pre consumed sent a r (set_buf q m') (unw stw' low)); assumption.
-    + (* start encoding in the lower part; the open block fits before the storage end *)
-      destruct Hno as [Hn|[Hn|Hn]]; [fold q in Hn; lia | fold q st in Hn; lia |]. fold q st in Hn.
-      destruct (Nat.leb_spec (escr st) (qmax q - qoff q - edone st)) as [_|Hbad]; [|lia].
-      assert (Hoff : qoff q < qmax q) by lia.
-      set (low := qmax q - qoff q) in *.
-      pose proof (finish_window v q st sent pre consumed [] (contents q) (qoff q) low a Hv Hq eq_refl
-                    ltac:(cbn [length]; rewrite contents_length by assumption; lia) ltac:(cbn [length]; lia)
-                    ltac:(cbn [length]; rewrite contents_length by assumption; lia)
-                    (geo_lower q Hq Hoff) ltac:(rewrite contents_length by assumption; lia) Hinv Hne) as H.
-      cbn [length] in H. rewrite wstate_0 in H.
-      destruct (win_enc v st (qbuf q) (qoff q) low a) as [[r st1] m].
-      destruct H as (m1 & -> & Hle1 & Hp1 & Herr1). rewrite unw_0 in Hp1, Hle1, Herr1. cbn [bind].
-      set (q1 := set_buf q m1) in *.
-      destruct r as [k|er|]; cbn [is_err].
-      * (* first call made progress *)
-        destruct (Nat.ltb_spec k (match a with Some d => length d | None => 0 end)) as [Hshort|Hfull].
-        -- (* incomplete: continue with the rest *)
-           destruct a as [src|]; [|cbn in Hshort; lia].
-           destruct Hp1 as [Hk1 Hr1]. destruct Hr1 as [[Hq1' Hl1'] Hinv1]. cbn [eq_q eq_st] in *.
-           assert (Hne2 : skipn k src <> []).
-           { intros E. apply (f_equal (@length _)) in E. rewrite skipn_length in E. cbn in E. lia. }
-           destruct (Nat.ltb_spec (edone st1) low) as [Hd1|Hd1].
-           ++ (* align and continue on the whole storage *)
-              set (q1' := set_len q1 (edone st1 + escr st1)) in *.
-              destruct (qalign_spec q1' 0 Hq1') as (q2 & Hal & Hq2 & Hm2 & Hl2 & Ho2 & Hc2).
-              rewrite Hal. cbn [bind]. specialize (Ho2 eq_refl).
-              rewrite <- Hc2 in Hinv1.
-              pose proof (push_whole v q2 st1 sent pre (consumed ++ firstn k src) (Some (skipn k src))
-                            Hv Hq2 Ho2 ltac:(rewrite Hl2; exact Hl1') Hinv1 Hne2) as H.
-              destruct (win_enc v st1 (qbuf q2) 0 (qmax q2) (Some (skipn k src))) as [[r2 st2] m2].
-              destruct H as (m2' & -> & Hle2 & Hp2 & _). cbn [bind].
-              destruct r2 as [k2|e2|]; [| |contradiction].
-              ** apply (finish_ok v pre consumed sent (Some src) (EInt (k + k2)) (set_buf q2 m2') st2); [assumption|].
-                 destruct Hp2 as [Hk2 Hr2]. rewrite skipn_length in Hk2. split; [lia|].
-                 rewrite <- app_assoc, firstn_firstn_skipn in Hr2. exact Hr2.
-              ** apply (finish_ok v pre consumed sent (Some src) (EInt k) (set_buf q2 m2') st2); [assumption|].
-                 split; [assumption|]. exact Hp2.
-           ++ (* second push into the upper part *)
-              set (q1' := set_len q1 (edone st1 + escr st1)) in *.
-              assert (Hq1m : qmax q1' = qmax q /\ qoff q1' = qoff q) by (split; reflexivity).
-              destruct Hq1m as [Hm1 Ho1].
-              assert (HcP : contents q1' = firstn low (contents q1') ++ skipn low (contents q1')) by (symmetry; apply firstn_skipn).
-              assert (Hlen1 : qlen q1' = edone st1 + escr st1) by reflexivity.
-              assert (HlP : length (firstn low (contents q1')) = low)
-                by (rewrite firstn_length, contents_length by assumption; lia).
-              assert (HlW : length (skipn low (contents q1')) = qlen q1' - low)
-                by (rewrite skipn_length, contents_length by assumption; lia).
-              pose proof (finish_window v q1' st1 sent pre (consumed ++ firstn k src)
-                            (firstn low (contents q1')) (skipn low (contents q1'))
-                            0 (qoff q) (Some (skipn k src)) Hv Hq1' HcP
-                            ltac:(rewrite HlP, HlW; lia) ltac:(rewrite HlP; lia) ltac:(rewrite HlP, HlW; lia)) as H.
-              rewrite HlP in H.
-              assert (Hgeo1 : window_geo q1' low 0 (qoff q))
-                by (apply (geo_upper q1' Hq1'); [rewrite Ho1; lia | rewrite Ho1, Hm1; lia]).
-              specialize (H Hgeo1 ltac:(rewrite HlW; lia) Hinv1 Hne2).
-              unfold rebase. fold (wstate st1 low).
-              change (qbuf q1') with (qbuf q1) in H.
-              destruct (win_enc v (wstate st1 low) (qbuf q1) 0 (qoff q) (Some (skipn k src))) as [[r2 stw2] m2].
-              destruct H as (m2' & -> & Hle2 & Hp2 & _). cbn [bind].
-              replace (mke (ectx stw2) (edone stw2 + low) (escr stw2)) with (unw stw2 low)
-                by (unfold unw; f_equal; lia).
-              change (set_len (set_buf q1' m2') (edone (unw stw2 low) + escr (unw stw2 low)))
-                with (set_len (set_buf q1 m2') (edone (unw stw2 low) + escr (unw stw2 low))) in Hp2.
-              destruct r2 as [k2|e2|]; [| |contradiction].
-              ** apply (finish_ok v pre consumed sent (Some src) (EInt (k + k2)) (set_buf q1 m2') (unw stw2 low)); [exact Hle2|].
-                 destruct Hp2 as [Hk2 Hr2]. rewrite skipn_length in Hk2. split; [lia|].
-                 rewrite <- app_assoc, firstn_firstn_skipn in Hr2. exact Hr2.
-              ** apply (finish_ok v pre consumed sent (Some src) (EInt k) (set_buf q1 m2') (unw stw2 low)); [exact Hle2|].
-                 split; [assumption|]. exact Hp2.
-        -- (* complete *)
-           apply (finish_ok v pre consumed sent a (EInt k) q1 st1); assumption.
-      * (* first call refused: align and retry on the whole storage *)
-        cbn [push_post] in Hp1.
-        assert (Hp1' : rinv v pre consumed sent (mkeq (set_len q1 (edone st1 + escr st1)) st1))
-          by (destruct a; exact Hp1).
-        destruct Hp1' as [[Hq1' Hl1'] Hinv1]. cbn [eq_q eq_st] in *.
-        set (q1' := set_len q1 (edone st1 + escr st1)) in *.
-        (* the C code aligns with the current length; a refused call leaves state and storage
-           unchanged, so that length is still right *)
-        assert (Hq1eq : q1 = q1').
-        { destruct (Herr1 eq_refl) as [Hst1 Hm1]. unfold q1', q1, set_len, set_buf. rewrite Hst1, Hm1.
-          destruct q as [qb ql qm qo]. cbn [qbuf qlen qmax qoff] in *. f_equal. exact Hl. }
-        rewrite Hq1eq.
-        destruct (qalign_spec q1' 0 Hq1') as (q2 & Hal & Hq2 & Hm2 & Hl2 & Ho2 & Hc2).
-        rewrite Hal. cbn [bind]. specialize (Ho2 eq_refl).
-        rewrite <- Hc2 in Hinv1.
-        pose proof (push_whole v q2 st1 sent pre consumed a Hv Hq2 Ho2 ltac:(rewrite Hl2; exact Hl1') Hinv1 Hne) as H.
-        destruct (win_enc v st1 (qbuf q2) 0 (qmax q2) a) as [[r2 st2] m2].
-        destruct H as (m2' & -> & Hle2 & Hp2 & _). cbn [bind].
-        apply (finish_ok v pre consumed sent a r2 (set_buf q2 m2') st2); assumption.
-      * cbn [push_post] in Hp1. destruct a; contradiction.
+      apply (finish_ok v pre consumed sent a r (set_buf q m') (unw stw' low) q); [assumption|assumption|reflexivity|left; reflexivity].
+    + (* start encoding in the lower part *)
+      assert (Hoff : qoff q < qmax q) by exact Hmax.
+      destruct (Nat.leb_spec (escr st) (qmax q - qoff q - edone st)) as [Hfits|Hoob].
+      * (* the open block fits before the storage end *)
+        set (low := qmax q - qoff q) in *.
+        pose proof (finish_window v q st sent pre consumed [] (contents q) (qoff q) low a Hv Hq eq_refl
+                      ltac:(cbn [length]; rewrite contents_length by assumption; lia) ltac:(cbn [length]; lia)
+                      ltac:(cbn [length]; rewrite contents_length by assumption; lia)
+                      (geo_lower q Hq Hoff) ltac:(rewrite contents_length by assumption; lia) Hinv Hne) as H.
+        cbn [length] in H. rewrite wstate_0 in H.
+        destruct (win_enc v st (qbuf q) (qoff q) low a) as [[r st1] m].
+        destruct H as (m1 & -> & Hle1 & Hp1 & Herr1). rewrite unw_0 in Hp1, Hle1, Herr1. cbn [bind].
+        apply (push_tail_ok v q st sent pre consumed a r (set_buf q m1) st1); try assumption; try reflexivity.
+        intros E. destruct (Herr1 E) as [-> ->]. split; [reflexivity|]. destruct q; reflexivity.
+      * (* out of band *)
+        destruct (push_oob_ok v q st sent pre consumed a Hv Hq Hl Hinv Hne)
+          as (r & q1 & st1 & -> & Hm1 & Ho1 & Hle1 & Hp1 & Herr1). cbn [bind].
+        apply (push_tail_ok v q st sent pre consumed a r q1 st1); assumption.
 Qed.
